@@ -21,7 +21,8 @@ RULE = (
 ASSUMPTIONS = [
     "reference = textbook LoROM/HiROM range tables and (bank-first bank)*size+(addr-window start)",
     "offsets of addresses below a 32K window and increments leaving the mapped ROM range are unjudged",
-    "writable= in .map is only generated as writable=1 (RAM) or absent (ROM)",
+    "writable= in .map is only generated as writable=1 (RAM) or absent (ROM); RAM ranges may have mirrors (RAM as well)",
+    "Bus API histories: a later map() over banks of an earlier one wins there (as in the built-in HiROM bus); lookups between the calls must not change later answers",
     "a .map window that shows the upper half of a 64K bank (addr_range 0x8000-0xFFFF, mask 0x10000, as the HiROM system area) "
     "has offset (bank-first)*64K + addr mod 64K: position inside the bank's file image",
 ]
@@ -290,7 +291,8 @@ def gen_map_config(rng: random.Random) -> list[dict]:
         }
         if rng.random() < 0.25:
             m["writable"] = 1
-        elif rng.random() < 0.6:
+        if rng.random() < (0.6 if not m.get("writable") else 0.35):
+            # also RAM with a mirror (LoROM SRAM 70-7D seen again at F0-FD): the mirror banks are RAM as well
             mir = take(br[1] - br[0] + 1)
             if mir is not None:
                 m["mirror_bank_range"] = mir
@@ -370,8 +372,17 @@ def run_bus_api(shard: dict, res: Res) -> None:
             live.append(m)
             hist.append(["map", m])
 
+        def touch(banks):
+            # addresses are looked up between the calls: what a lookup answered earlier must not outlive a later map()/unmap()
+            for bank in banks:
+                for low in (0x0000, 0x8000, 0xFFFF):
+                    _lookup(bus, (bank << 16) | low)
+            hist.append(["touch", sorted(banks)])
+
         for m in first:
             do_map(m)
+            if rng.random() < 0.5:
+                touch(set(range(256)) if rng.random() < 0.3 else {rng.randrange(256) for _ in range(12)})
         gone = [m for m in first if rng.random() < 0.5]
         for m in gone:
             bus.unmap(str(m["identifier"]))
@@ -384,6 +395,17 @@ def run_bus_api(shard: dict, res: Res) -> None:
                     if rr and not (hi < rr[0] or lo > rr[1]):
                         return True
             return False
+        if rng.random() < 0.6:
+            touch(set(range(256)))
+        if live and rng.random() < 0.5:
+            # a later map() over banks an earlier one covers wins there (the built-in HiROM bus puts work RAM 7E-7F over ROM 40-7F this way)
+            old = rng.choice(live)
+            lo = rng.randint(old["bank_range"][0], old["bank_range"][1])
+            hi = rng.randint(lo, min(old["bank_range"][1], lo + 3))
+            size = rng.choice([0x8000, 0x10000])
+            do_map({"identifier": 40, "bank_range": (lo, hi), "addr_range": (0x8000, 0xFFFF) if size == 0x8000 else (0, 0xFFFF), "mask": size,
+                    **({"writable": 1} if rng.random() < 0.5 else {})})
+            res.count("bus_api_takeovers")
         for k in range(rng.randint(0, 2)):
             for _try in range(20):
                 if gone and rng.random() < 0.6:
@@ -410,7 +432,7 @@ def run_bus_api(shard: dict, res: Res) -> None:
                 break
             a, m_, n_ = gen_addr(rng, cfg), gen_inc(rng), gen_inc(rng)
             check_advance(res, cfg, bus, "api", a, m_, n_, dict(wit, a=a, m=m_, n=n_))
-        res.sample({"kind": "bus_api", "calls": [[h[0], h[1] if h[0] == "unmap" else h[1]["bank_range"]] for h in hist]})
+        res.sample({"kind": "bus_api", "calls": [[h[0], h[1] if h[0] == "unmap" else (len(h[1]) if h[0] == "touch" else h[1]["bank_range"])] for h in hist]})
 
 
 # ----------------------------------------------------------------------------
@@ -440,6 +462,10 @@ def replay(w: dict) -> Res:
                 bus.map(str(arg["identifier"]), tuple(arg["bank_range"]), tuple(arg["addr_range"]), arg["mask"], writeable=bool(arg.get("writable")),
                         mirror_bank_range=tuple(arg["mirror_bank_range"]) if arg.get("mirror_bank_range") else None)
                 live.append(arg)
+            elif op == "touch":
+                for bank in arg:
+                    for low in (0x0000, 0x8000, 0xFFFF):
+                        _lookup(bus, (bank << 16) | low)
             else:
                 bus.unmap(str(arg))
                 live = [m for m in live if m["identifier"] != arg]
